@@ -374,6 +374,8 @@ impl ProofPool {
         }
         self.verifies_in_window += 1;
 
+        #[cfg(quantus_network_qp_zk_circuits_verif)]
+        verif_hooks::note_verify_call();
         self.verifier.verify(proof.clone()).map_err(|e| {
             anyhow!(
                 "refusing to queue invalid private-batch proof: verification failed: {}",
@@ -640,6 +642,87 @@ impl ProofPool {
             .fold(0u64, |acc, sum| acc.saturating_add(sum));
 
         Ok((key, nullifiers, volume))
+    }
+}
+
+/// Verification hooks: a per-thread counter of cryptographic verification
+/// calls made by [`ProofPool::push`] and a read-only dump of the pool state.
+#[cfg(quantus_network_qp_zk_circuits_verif)]
+pub mod verif_hooks {
+    use super::*;
+    use std::cell::Cell;
+
+    thread_local! {
+        static VERIFY_CALLS: Cell<u64> = const { Cell::new(0) };
+    }
+
+    pub(super) fn note_verify_call() {
+        VERIFY_CALLS.with(|c| c.set(c.get() + 1));
+    }
+
+    /// Number of verifier calls made by pools on the current thread so far.
+    pub fn verify_calls() -> u64 {
+        VERIFY_CALLS.with(|c| c.get())
+    }
+
+    #[derive(Debug, Clone)]
+    pub struct PooledProofDump {
+        pub nullifiers: Vec<BytesDigest>,
+        pub volume: u64,
+        pub admitted_at: Instant,
+        pub public_inputs: Vec<u64>,
+    }
+
+    #[derive(Debug, Clone)]
+    pub struct BucketDump {
+        pub key: BatchKey,
+        pub proofs: Vec<PooledProofDump>,
+        pub last_snapshot_at: Option<Instant>,
+    }
+
+    #[derive(Debug, Clone)]
+    pub struct PoolDump {
+        pub buckets: Vec<BucketDump>,
+        pub nullifier_index: Vec<(BytesDigest, BatchKey)>,
+        pub verify_window_started: Instant,
+        pub verifies_in_window: usize,
+    }
+
+    impl ProofPool {
+        pub fn verif_dump(&self) -> PoolDump {
+            PoolDump {
+                buckets: self
+                    .buckets
+                    .iter()
+                    .map(|(key, bucket)| BucketDump {
+                        key: *key,
+                        proofs: bucket
+                            .proofs
+                            .iter()
+                            .map(|q| PooledProofDump {
+                                nullifiers: q.nullifiers.clone(),
+                                volume: q.volume,
+                                admitted_at: q.admitted_at,
+                                public_inputs: q
+                                    .proof
+                                    .public_inputs
+                                    .iter()
+                                    .map(|f| f.to_canonical_u64())
+                                    .collect(),
+                            })
+                            .collect(),
+                        last_snapshot_at: bucket.last_snapshot_at,
+                    })
+                    .collect(),
+                nullifier_index: self
+                    .nullifier_index
+                    .iter()
+                    .map(|(n, k)| (*n, *k))
+                    .collect(),
+                verify_window_started: self.verify_window_started,
+                verifies_in_window: self.verifies_in_window,
+            }
+        }
     }
 }
 
